@@ -625,6 +625,9 @@ func execReplayTest(rel, src string) string {
 		return err.Error()
 	}
 	defer os.RemoveAll(tmp)
+	if rel == "io" {
+		return execExtractedIOTest(tmp, src)
+	}
 	testFile := filepath.Join(tmp, "zz_owvc_replay_test.go")
 	os.WriteFile(testFile, []byte(src), 0o644)
 	ov := map[string]map[string]string{"Replace": {filepath.Join(repoRoot, rel, "zz_owvc_replay_test.go"): testFile}}
@@ -645,4 +648,41 @@ func execReplayTest(rel, src string) string {
 	run.Stdout, run.Stderr = &rout, &rout
 	run.Run()
 	return rout.String()
+}
+
+// execExtractedIOTest: package io cannot be built here (libhdf5 is absent). Its
+// two functions that do not call the library (sliceSize, makeHyperslab) are
+// extracted verbatim from /repo/io/hdf5_util.go into a scratch module and the
+// replay test runs against that text.
+func execExtractedIOTest(tmp, src string) string {
+	b, err := os.ReadFile(filepath.Join(repoRoot, "io", "hdf5_util.go"))
+	if err != nil {
+		return err.Error()
+	}
+	extract := func(name string) string {
+		text := string(b)
+		i := strings.Index(text, "\nfunc "+name+"(")
+		if i < 0 {
+			return ""
+		}
+		j := strings.Index(text[i+1:], "\n}\n")
+		if j < 0 {
+			return ""
+		}
+		return text[i+1 : i+1+j+3]
+	}
+	ext := "package io\n\nimport \"github.com/flowmatters/openwater-core/util/m\"\n\n" + extract("makeHyperslab") + "\n" + extract("sliceSize") + "\n"
+	os.WriteFile(filepath.Join(tmp, "extracted.go"), []byte(ext), 0o644)
+	os.WriteFile(filepath.Join(tmp, "zz_owvc_replay_test.go"), []byte(src), 0o644)
+	os.WriteFile(filepath.Join(tmp, "go.mod"), []byte("module ioextract\n\ngo 1.12\n\nrequire github.com/flowmatters/openwater-core v0.0.0\n\nreplace github.com/flowmatters/openwater-core => "+repoRoot+"\n"), 0o644)
+	if sum, err := os.ReadFile(filepath.Join(repoRoot, "go.sum")); err == nil {
+		os.WriteFile(filepath.Join(tmp, "go.sum"), sum, 0o644)
+	}
+	run := exec.Command("go", "test", "-vet=off", "-count=1", "-timeout", "60s", "-run", "^TestOwvcReplay$", ".")
+	run.Dir = tmp
+	run.Env = append(os.Environ(), "GOFLAGS=-mod=mod", "GOPROXY=off", "GOSUMDB=off", "GOTOOLCHAIN=local")
+	var out bytes.Buffer
+	run.Stdout, run.Stderr = &out, &out
+	run.Run()
+	return out.String()
 }
